@@ -508,7 +508,9 @@ def project_lists_follow_selection(prop="C05"):
         ok = nml_at[-1] > prune_at[0] and isinstance(st.value, ast.ListComp) and src.startswith("[nml for nml in self.namelists if") and "is_displayed(nml)" in src
         helper = [d for d in body if isinstance(d, ast.FunctionDef) and d.name == "is_displayed"]
         ok = ok and len(helper) == 1 and "getattr(entity, 'visible', True)" in ast.unparse(helper[0]) and "getattr(entity, 'parent', None)" in ast.unparse(helper[0])
+        # ... and that its own parent still lists (prune() removes a namelist the display options exclude from `parent.namelists`; `visible` is always true for a namelist)
+        ok = ok and "nml in getattr(nml.parent, 'namelists'" in src
     out.append(OR(id=f"{prop}.S.Project.correlate.namelists_filtered_after_prune", status=PROVED if ok else REFUTED, kind="S", role="post", backend="ast", target=tgt,
-                  desc="project.namelists (filled while parsing) is reduced, after pruning, to the namelists all of whose ancestors are displayed",
+                  desc="project.namelists (filled while parsing) is reduced, after pruning, to the namelists that their parent still lists and all of whose ancestors are displayed",
                   witness=None if ok else {"assignments to self.namelists in correlate": [ast.unparse(body[i])[:160] for i in nml_at]}))
     return out
